@@ -126,7 +126,11 @@ def _translate_glob(pattern):
     recursive = False
     re_patterns = [""]
     for component in iteratepath(pattern):
-        if "**" in component:
+        if component == "**":
+            # zero or more whole directory levels
+            recursive = True
+            re_patterns.append("(?:/[^/]+)*")
+        elif "**" in component:
             recursive = True
             split = component.split("**")
             split_re = [_translate(s) for s in split]
